@@ -98,7 +98,13 @@ def run(ctx):
         for p in range(n):
             for q in range(p, n): h[p, q] = h[q, p] = rng.randint(-4, 4) / 4
         eri = rand_eri(rng, n); const = rng.choice([0.0, 0.5, -1.25])
-        one, two = spinorb_from_spatial(h, eri)
+        if i % 4 == 3:
+            # integer-valued integrals handed over as integer arrays (lattice / model Hamiltonians): same value required
+            h = np.array([[int(rng.randint(-2, 2)) for _ in range(n)] for _ in range(n)]); h = h + h.T
+            eri = np.round(rand_eri(rng, n) * 4).astype(np.int64)
+            one, two = spinorb_from_spatial(h.astype(float), eri.astype(float))
+        else:
+            one, two = spinorb_from_spatial(h, eri)
         spec = spec_tensor(const, one, 0.5 * two)
         v1, v2 = get_one_norm_int(const, h, eri), get_one_norm_int_woconst(h, eri)
         add('get_one_norm', '(one_norm_ok %s true %s %s && one_norm_ok %s false %s %s)' % (coq_fop_terms(spec), cQ(Fraction(float(v1))), cQ(Fraction(1, 10 ** 9)), coq_fop_terms(spec), cQ(Fraction(float(v2))), cQ(Fraction(1, 10 ** 9))),
